@@ -38,8 +38,11 @@ func (wrr *WeightedRoundRobinStrategy) NextBackend(r *http.Request) *Backend {
 	var best *weightedBackend
 
 	for _, wb := range wrr.backends {
-		// Only consider healthy backends
-		if wb.backend.IsHealthy {
+		// Only consider healthy backends (the flag is written under the backend's mutex)
+		wb.backend.Mutex.RLock()
+		healthy := wb.backend.IsHealthy
+		wb.backend.Mutex.RUnlock()
+		if healthy {
 			totalWeight += wb.backend.Weight
 			wb.currentWeight += wb.backend.Weight
 
